@@ -181,11 +181,23 @@ impl C12 {
         let ctl: Arc<(Mutex<HashMap<u64, (bool, bool, bool)>>, std::sync::Condvar)> = Arc::new((Mutex::new(HashMap::new()), std::sync::Condvar::new()));
         let c2 = ctl.clone();
         flexi_logger::verif_hooks::set_point_handler(Some(Arc::new(move |name| {
+            let tname = std::thread::current().name().unwrap_or("").to_string();
+            if name == "spec.enter" {
+                // threads started by CENTER park here, BEFORE they ask for the lock
+                let Some(tid) = tname.strip_prefix("c12e-").and_then(|x| x.parse::<u64>().ok()) else { return };
+                let (m, cv) = &*c2;
+                let mut g = m.lock().unwrap();
+                g.entry(tid + 1000).or_insert((false, false, false)).0 = true;
+                cv.notify_all();
+                while !g.get(&(tid + 1000)).unwrap().1 {
+                    g = cv.wait(g).unwrap();
+                }
+                return;
+            }
             if name != "spec.updated" {
                 return;
             }
-            let tname = std::thread::current().name().unwrap_or("").to_string();
-            let Some(tid) = tname.strip_prefix("c12-").and_then(|x| x.parse::<u64>().ok()) else { return };
+            let Some(tid) = tname.strip_prefix("c12-").or_else(|| tname.strip_prefix("c12e-")).and_then(|x| x.parse::<u64>().ok()) else { return };
             let (m, cv) = &*c2;
             let mut g = m.lock().unwrap();
             g.entry(tid).or_insert((false, false, false)).0 = true;
@@ -210,6 +222,7 @@ impl C12 {
     fn finish_all(&mut self) {
         let tids: Vec<u64> = self.joins.keys().copied().collect();
         for t in &tids {
+            self.release(*t + 1000);
             self.release(*t);
         }
         for (_, j) in self.joins.drain() {
@@ -295,7 +308,7 @@ pub fn execute(ctx: &mut Ctx, lines: &[String]) -> Vec<String> {
     let (mut d_err, mut d_out) = (0u64, 0u64);
     for (li, line) in lines.iter().enumerate() {
         let t = tokens(line);
-        let needs_logger = matches!(t[0], "SET" | "PUSH" | "POP" | "PARSENEW" | "PARSEPUSH" | "GRID" | "Q" | "LOG" | "CSTART" | "CFINISH" | "CQUIET");
+        let needs_logger = matches!(t[0], "SET" | "PUSH" | "POP" | "PARSENEW" | "PARSEPUSH" | "GRID" | "Q" | "LOG" | "CSTART" | "CENTER" | "CGO" | "CFINISH" | "CQUIET");
         let needs_spec = matches!(t[0], "DISPLAY" | "DISPLAYSORTED" | "TOML" | "EN" | "MAXLEVEL" | "INIT" | "SET" | "PUSH");
         if needs_logger && st.logger.is_none() {
             out.push("no-logger".into());
@@ -571,6 +584,35 @@ pub fn execute(ctx: &mut Ctx, lines: &[String]) -> Vec<String> {
                 if c.wait_updated(tid, 60) { "ok".into() } else { ctx.report.count("c12.blocked"); "blocked".into() }
                 }
             }
+            // CENTER: the call is entered and parked before it asks for the lock; CGO lets it go on
+            ["CENTER", tid, id] => {
+                if !st.specs.contains_key(*id) {
+                    "bad-op unknown spec".into()
+                } else {
+                let tid: u64 = tid.parse().unwrap();
+                let c = st.c12.get_or_insert_with(C12::new);
+                let spec = st.specs[*id].clone();
+                c.submitted.push(id.to_string());
+                let h = st.logger.as_ref().unwrap().1.clone();
+                ctx.report.count("op.CENTER");
+                c.joins.insert(tid, std::thread::Builder::new().name(format!("c12e-{tid}")).spawn(move || {
+                    h.set_new_spec(spec);
+                    std::mem::forget(h);
+                }).unwrap());
+                if c.wait_updated(tid + 1000, 2000) { "ok".into() } else { "not-parked".into() }
+                }
+            }
+            ["CGO", tid, _id] => {
+                let tid: u64 = tid.parse().unwrap();
+                ctx.report.count("op.CGO");
+                match st.c12.as_mut() {
+                    Some(c) if c.joins.contains_key(&tid) => {
+                        c.release(tid + 1000);
+                        if c.wait_updated(tid, 60) { "ok".into() } else { ctx.report.count("c12.blocked"); "blocked".into() }
+                    }
+                    _ => "bad-op no such call".into(),
+                }
+            }
             ["CFINISH", tid] => {
                 let tid: u64 = tid.parse().unwrap();
                 ctx.report.count("op.CFINISH");
@@ -788,6 +830,15 @@ pub fn execute(ctx: &mut Ctx, lines: &[String]) -> Vec<String> {
                         }
                         format!("default={} to={} unknown={unknown} emitted={}", if default { 1 } else { 0 }, if recv.is_empty() { "-".to_string() } else { recv.join(",") }, if em.is_empty() { "-".to_string() } else { em.join(",") })
                     } else {
+                        // (no recording writer registered, maybe no additional writer at all) the brace
+                        // target still addresses writers only: without `_Default` in the list the
+                        // default channel gets nothing
+                        if prop == "C13" && tg.starts_with('{') && tg.ends_with('}') && tg.len() >= 2 && l <= lfn(log::max_level()) {
+                            let inner = &tg[1..tg.len() - 1];
+                            if default && !inner.split(',').any(|n| n == "_Default") {
+                                ctx.report.fail(&case_id, "brace-default", &format!("line {li}: target {tg:?} reached the default channel without _Default in the list"));
+                            }
+                        }
                         format!("default={} to={} unknown={unknown}", if default { 1 } else { 0 }, if ws.is_empty() { "-".to_string() } else { ws.join(",") })
                     }
                 }
@@ -1235,6 +1286,35 @@ pub fn gen_c12(tier: &str, seed: u64) -> Vec<Vec<String>> {
     }
     let mut k = 0;
     let reps = if tier == "thorough" { 8 } else { 2 };
+    // calls that are entered (and may already have LOOKED at shared state) before another call
+    // runs from start to end; maximum levels that coincide with the one in force
+    for _ in 0..(if tier == "thorough" { 200 } else { 24 }) {
+        let mut r = root.fork();
+        let mut c = vec![format!("CASE spec C12 e{k}")];
+        k += 1;
+        if r.chance(1, 3) { c.push(format!("WRITER {} {}", hexs("W0"), r.below(6))); }
+        let lo = r.range(1, 4);                 // level in force, and of the late call
+        let la = r.below(lo);                   // the call in between is more restrictive
+        let m = r.pick_s(&["chatty", "a::b"]).to_string();
+        c.push(format!("BUILD s2 _:{lo} _"));
+        c.push(format!("BUILD s0 _:{la} _"));
+        c.push(format!("BUILD s1 _:{},n{}:{lo} _", r.below(lo + 1), hexs(&m)));
+        let tgs = targets_for(&mut r, &[m.clone()]);
+        let grid: String = tgs.iter().map(|t| hexs(t)).collect::<Vec<_>>().join(" ");
+        c.push("INIT s2".into());
+        c.push("CENTER 1 s1".into());
+        c.push("CSTART 0 s0".into());
+        let early = r.chance(1, 3);
+        if early { c.push("CGO 1 s1".into()); }                // asks for the lock while it is held
+        c.push("CFINISH 0".into());
+        if !early { c.push("CGO 1 s1".into()); }
+        c.push("CFINISH 1".into());
+        c.push("CFINISH 1".into());
+        c.push(format!("CQUIET {grid}"));
+        c.push(format!("GRID {grid}"));
+        c.push("END".into());
+        cases.push(c);
+    }
     for n in [2usize, 3] {
         let all = interleavings(n);
         for sched in all {
@@ -1304,7 +1384,7 @@ pub fn gen_c13(tier: &str, seed: u64) -> Vec<Vec<String>> {
             continue;
         }
         let kinds = ["rec", "rec", "flw", "syslog"];
-        let nw = r.range(1, 4);
+        let nw = if r.chance(1, 6) { 0 } else { r.range(1, 4) };   // also: no additional writer at all
         let mut wnames: Vec<String> = Vec::new();
         for i in 0..nw {
             let name = format!("W{i}");
